@@ -1,5 +1,5 @@
 import Invoke.Lemmas.ProgramParse
-import Invoke.Lemmas.ProgramPlacementE
+import Invoke.Lemmas.ProgramPlacementF
 import Invoke.Lemmas.SpellCheck
 import Invoke.Generated.Program
 /-! # C18 — core options mean the same anywhere; task tokens and the remainder stay intact
@@ -91,7 +91,8 @@ theorem unknown_state_stores_verbatim (n : Nat) (m m' : M) (t : Tok) (hu : m.st 
     EXCLUDED POINT (hypothesis `hflt : mt.flag = none`, more generally "the machine is not waiting for a value"):
     directly after a bare OPTIONAL-value flag — of the task or of the core (`-l`/`--list`, `-h`/`--help`) — the next token
     is taken as that flag's value unless it is a flag of the TASK; a core flag is not looked up at that point, so it is
-    swallowed (`core_optional_then_core_flag_counterexample`, known finding C18-core-optional-then-core-flag).  Handled inside a task context — whatever the
+    swallowed (before the repair recorded as finding C18-core-optional-then-core-flag it was swallowed, see
+    `core_optional_then_core_flag_pinned_counterexample`; now a core flag is recognised there, `…_repaired`).  Handled inside a task context — whatever the
     task's own arguments, even with positionals still missing — an unshadowed boolean core flag has exactly the effect
     it has in the core context: the same core argument gets the same value; the task context, the finished contexts
     and the unparsed list are untouched. -/
@@ -154,10 +155,11 @@ items (spaced / `=` / glued value flags, toggles, inverse flags, combined short 
 flags) in any order.  `argvWithCore k pre post ctoks calls2` is the command line
 `k.tname :: pre… ++ ctoks ++ post… ++ calls2…`: the core item `ctoks` sits between two items of the FIRST call.
 
-EXCLUDED POINT, explicit as hypothesis `hpre : endsBare false pre = false`: the core item does not come directly after a
-bare optional-value flag of the task (documented ambiguity) — and, since core optional-value flags (`--list`, `--help`)
-are not core items in the sense of `CoreStep`, not after one of those either
-(`core_optional_then_core_flag_counterexample`). -/
+NO EXCLUDED POINT ANY MORE at the item boundaries: the core item may also come directly after a bare optional-value flag
+of the task (`pre` may end with `Item.optBare`) — the machine ties that flag off with `True` and handles the core item as
+a flag, not as the pending flag's value (fix of finding C18-core-optional-then-core-flag; `CoreStepB`,
+`popt_procTok_core`).  Core optional-value flags (`--list`, `--help`) are not themselves core items in the sense of
+`CoreStep`; `core_optional_then_core_flag_repaired` shows the repaired behaviour for them on concrete command lines. -/
 
 /-- PLACEMENT, BOOLEAN CORE FLAG, WHOLE ARGV (partial2).  For every chain of task calls `k :: calls2` admissible in the
     sense of C01, every split `pre ++ post` of the first call's items and every unsplit Boolean core flag `tok`
@@ -171,7 +173,6 @@ are not core items in the sense of `CoreStep`, not after one of those either
 theorem core_flag_placement_invariant_partial2 (ic : Ctx) (reg : List Ctx) (k : Call) (pre post : List Item)
     (calls2 : List Call) (tok : Tok) (i : Nat) (a a' : Arg)
     (hk : k.items = pre ++ post) (hok : ChainOK (some ic) reg (some ic) (k :: calls2))
-    (hpre : endsBare false pre = false)
     (hun : Unsplit tok) (hcf : assoc? tok k.ctx.flags = none) (hcinv : assoc? tok k.ctx.inverse = none)
     (hl : reg.find? (fun x => x.name = some tok || x.aliases.contains tok) = none)
     (hf : assoc? tok ic.flags = some i) (ha : ic.args[i]? = some a) (hh : a.spec.names.headD [] ≠ "help".toList)
@@ -184,12 +185,12 @@ theorem core_flag_placement_invariant_partial2 (ic : Ctx) (reg : List Ctx) (k : 
       rA.tasks = (k :: calls2).map Call.result ∧ rB.tasks = rA.tasks ∧ rA.remainder = rB.remainder := by
   obtain ⟨s1, s2, s3⟩ := Arg.setValue_settled a a' (.b true) true (by simp) hs
   have htab := foldl_apply_tables pre k.ctx
-  have hcore : CoreStep ic (ic.setArg i a') reg (pre.foldl Item.apply k.ctx) [tok] :=
-    coreStep_bool ic reg _ tok i a a' hun (by rw [htab.1]; exact hcf) (by rw [htab.2]; exact hcinv) hl hf ha hh ht hs
+  have hcore : CoreStepB ic (ic.setArg i a') reg (pre.foldl Item.apply k.ctx) [tok] :=
+    coreStepB_bool ic reg _ tok i a a' hun (by rw [htab.1]; exact hcf) (by rw [htab.2]; exact hcinv) hl hf ha hh ht hs
   have hcore0 : CoreStep0 ic (ic.setArg i a') [tok] := coreStep0_bool ic tok i a a' hun hf ha ht hs
   have hmiss' : (ic.setArg i a').missingPositional = [] := by
     simp [Ctx.missingPositional, Ctx.setArg, hpos]
-  obtain ⟨hA, hB⟩ := program_with_core ic (ic.setArg i a') reg k pre post calls2 [tok] rfl rfl hmiss' hk hok hpre hcore hcore0 hbody
+  obtain ⟨hA, hB⟩ := program_with_core ic (ic.setArg i a') reg k pre post calls2 [tok] rfl rfl hmiss' hk hok hcore hcore0 hbody
   have hga' : a'.gotValue = true := by
     have : ¬ a'.spec.kind = .list := by rw [s1]; exact hkl
     simp [Arg.gotValue, this, s3]
@@ -202,7 +203,6 @@ theorem core_flag_placement_invariant_partial2 (ic : Ctx) (reg : List Ctx) (k : 
 theorem core_value_flag_placement_partial2 (ic : Ctx) (reg : List Ctx) (k : Call) (pre post : List Item)
     (calls2 : List Call) (tok v : Tok) (i : Nat) (a a' : Arg)
     (hk : k.items = pre ++ post) (hok : ChainOK (some ic) reg (some ic) (k :: calls2))
-    (hpre : endsBare false pre = false)
     (hun : Unsplit tok) (hcf : assoc? tok k.ctx.flags = none) (hcinv : assoc? tok k.ctx.inverse = none)
     (hl : reg.find? (fun x => x.name = some tok || x.aliases.contains tok) = none)
     (hvf : assoc? v k.ctx.flags = none) (hvinv : assoc? v k.ctx.inverse = none)
@@ -217,13 +217,13 @@ theorem core_value_flag_placement_partial2 (ic : Ctx) (reg : List Ctx) (k : Call
       rA.tasks = (k :: calls2).map Call.result ∧ rB.tasks = rA.tasks ∧ rA.remainder = rB.remainder := by
   obtain ⟨s1, s2, s3⟩ := Arg.setValue_settled a a' (.s v) true (by simp) hs
   have htab := foldl_apply_tables pre k.ctx
-  have hcore : CoreStep ic (ic.setArg i a') reg (pre.foldl Item.apply k.ctx) [tok, v] :=
-    coreStep_value_spaced ic reg _ tok v i a a' hun (by rw [htab.1]; exact hcf) (by rw [htab.2]; exact hcinv) hl
+  have hcore : CoreStepB ic (ic.setArg i a') reg (pre.foldl Item.apply k.ctx) [tok, v] :=
+    coreStepB_value ic reg _ tok v [tok, v] i a a' (.spaced hun) (by rw [htab.1]; exact hcf) (by rw [htab.2]; exact hcinv) hl
       (by rw [htab.1]; exact hvf) (by rw [htab.2]; exact hvinv) hf ha hh ht hr0 ho hs
   have hcore0 : CoreStep0 ic (ic.setArg i a') [tok, v] := coreStep0_value_spaced ic tok v i a a' hun hvf0 hvinv0 hf ha ht hr0 ho hs
   have hmiss' : (ic.setArg i a').missingPositional = [] := by
     simp [Ctx.missingPositional, Ctx.setArg, hpos]
-  obtain ⟨hA, hB⟩ := program_with_core ic (ic.setArg i a') reg k pre post calls2 [tok, v] rfl rfl hmiss' hk hok hpre hcore hcore0 hbody
+  obtain ⟨hA, hB⟩ := program_with_core ic (ic.setArg i a') reg k pre post calls2 [tok, v] rfl rfl hmiss' hk hok hcore hcore0 hbody
   have hga' : a'.gotValue = true := by
     have : ¬ a'.spec.kind = .list := by rw [s1]; exact hkl
     simp [Arg.gotValue, this, s3]
@@ -238,7 +238,6 @@ theorem core_value_flag_placement_partial3 (ic : Ctx) (reg : List Ctx) (k : Call
     (calls2 : List Call) (tok v : Tok) (ctoks : List Tok) (i : Nat) (a a' : Arg)
     (hsp : CoreValSpelling tok v ctoks)
     (hk : k.items = pre ++ post) (hok : ChainOK (some ic) reg (some ic) (k :: calls2))
-    (hpre : endsBare false pre = false)
     (hcf : assoc? tok k.ctx.flags = none) (hcinv : assoc? tok k.ctx.inverse = none)
     (hl : reg.find? (fun x => x.name = some tok || x.aliases.contains tok) = none)
     (hvf : assoc? v k.ctx.flags = none) (hvinv : assoc? v k.ctx.inverse = none)
@@ -253,13 +252,13 @@ theorem core_value_flag_placement_partial3 (ic : Ctx) (reg : List Ctx) (k : Call
       rA.tasks = (k :: calls2).map Call.result ∧ rB.tasks = rA.tasks ∧ rA.remainder = rB.remainder := by
   obtain ⟨s1, s2, s3⟩ := Arg.setValue_settled a a' (.s v) true (by simp) hs
   have htab := foldl_apply_tables pre k.ctx
-  have hcore : CoreStep ic (ic.setArg i a') reg (pre.foldl Item.apply k.ctx) ctoks :=
-    coreStep_value ic reg _ tok v ctoks i a a' hsp (by rw [htab.1]; exact hcf) (by rw [htab.2]; exact hcinv) hl
+  have hcore : CoreStepB ic (ic.setArg i a') reg (pre.foldl Item.apply k.ctx) ctoks :=
+    coreStepB_value ic reg _ tok v ctoks i a a' hsp (by rw [htab.1]; exact hcf) (by rw [htab.2]; exact hcinv) hl
       (by rw [htab.1]; exact hvf) (by rw [htab.2]; exact hvinv) hf ha hh ht hr0 ho hs
   have hcore0 : CoreStep0 ic (ic.setArg i a') ctoks := coreStep0_value ic tok v ctoks i a a' hsp hvf0 hvinv0 hf ha ht hr0 ho hs
   have hmiss' : (ic.setArg i a').missingPositional = [] := by
     simp [Ctx.missingPositional, Ctx.setArg, hpos]
-  obtain ⟨hA, hB⟩ := program_with_core ic (ic.setArg i a') reg k pre post calls2 ctoks rfl rfl hmiss' hk hok hpre hcore hcore0 hbody
+  obtain ⟨hA, hB⟩ := program_with_core ic (ic.setArg i a') reg k pre post calls2 ctoks rfl rfl hmiss' hk hok hcore hcore0 hbody
   have hga' : a'.gotValue = true := by
     have : ¬ a'.spec.kind = .list := by rw [s1]; exact hkl
     simp [Arg.gotValue, this, s3]
@@ -271,7 +270,6 @@ theorem core_value_flag_placement_partial3 (ic : Ctx) (reg : List Ctx) (k : Call
 theorem core_flag_placement_invariant_partial2_later (ic : Ctx) (reg : List Ctx) (k0 : Call) (r0 : List Call) (k : Call)
     (pre post : List Item) (calls2 : List Call) (tok : Tok) (i : Nat) (a a' : Arg)
     (hk : k.items = pre ++ post) (hok : ChainOK (some ic) reg (some ic) ((k0 :: r0) ++ k :: calls2))
-    (hpre : endsBare false pre = false)
     (hun : Unsplit tok) (hcf : assoc? tok k.ctx.flags = none) (hcinv : assoc? tok k.ctx.inverse = none)
     (hl : reg.find? (fun x => x.name = some tok || x.aliases.contains tok) = none)
     (hf : assoc? tok ic.flags = some i) (ha : ic.args[i]? = some a) (hh : a.spec.names.headD [] ≠ "help".toList)
@@ -285,12 +283,12 @@ theorem core_flag_placement_invariant_partial2_later (ic : Ctx) (reg : List Ctx)
       rA.tasks = ((k0 :: r0) ++ k :: calls2).map Call.result ∧ rB.tasks = rA.tasks ∧ rA.remainder = rB.remainder := by
   obtain ⟨s1, s2, s3⟩ := Arg.setValue_settled a a' (.b true) true (by simp) hs
   have htab := foldl_apply_tables pre k.ctx
-  have hcore : CoreStep ic (ic.setArg i a') reg (pre.foldl Item.apply k.ctx) [tok] :=
-    coreStep_bool ic reg _ tok i a a' hun (by rw [htab.1]; exact hcf) (by rw [htab.2]; exact hcinv) hl hf ha hh ht hs
+  have hcore : CoreStepB ic (ic.setArg i a') reg (pre.foldl Item.apply k.ctx) [tok] :=
+    coreStepB_bool ic reg _ tok i a a' hun (by rw [htab.1]; exact hcf) (by rw [htab.2]; exact hcinv) hl hf ha hh ht hs
   have hcore0 : CoreStep0 ic (ic.setArg i a') [tok] := coreStep0_bool ic tok i a a' hun hf ha ht hs
   have hmiss' : (ic.setArg i a').missingPositional = [] := by
     simp [Ctx.missingPositional, Ctx.setArg, hpos]
-  obtain ⟨hA, hB⟩ := program_with_core_later ic (ic.setArg i a') reg k0 r0 k pre post calls2 [tok] rfl rfl hmiss' hk hok hpre
+  obtain ⟨hA, hB⟩ := program_with_core_later ic (ic.setArg i a') reg k0 r0 k pre post calls2 [tok] rfl rfl hmiss' hk hok
     hcore hcore0 hbodyA hbodyB
   have hga' : a'.gotValue = true := by
     have : ¬ a'.spec.kind = .list := by rw [s1]; exact hkl
@@ -303,7 +301,6 @@ theorem core_value_flag_placement_partial3_later (ic : Ctx) (reg : List Ctx) (k0
     (pre post : List Item) (calls2 : List Call) (tok v : Tok) (ctoks : List Tok) (i : Nat) (a a' : Arg)
     (hsp : CoreValSpelling tok v ctoks)
     (hk : k.items = pre ++ post) (hok : ChainOK (some ic) reg (some ic) ((k0 :: r0) ++ k :: calls2))
-    (hpre : endsBare false pre = false)
     (hcf : assoc? tok k.ctx.flags = none) (hcinv : assoc? tok k.ctx.inverse = none)
     (hl : reg.find? (fun x => x.name = some tok || x.aliases.contains tok) = none)
     (hvf : assoc? v k.ctx.flags = none) (hvinv : assoc? v k.ctx.inverse = none)
@@ -319,13 +316,13 @@ theorem core_value_flag_placement_partial3_later (ic : Ctx) (reg : List Ctx) (k0
       rA.tasks = ((k0 :: r0) ++ k :: calls2).map Call.result ∧ rB.tasks = rA.tasks ∧ rA.remainder = rB.remainder := by
   obtain ⟨s1, s2, s3⟩ := Arg.setValue_settled a a' (.s v) true (by simp) hs
   have htab := foldl_apply_tables pre k.ctx
-  have hcore : CoreStep ic (ic.setArg i a') reg (pre.foldl Item.apply k.ctx) ctoks :=
-    coreStep_value ic reg _ tok v ctoks i a a' hsp (by rw [htab.1]; exact hcf) (by rw [htab.2]; exact hcinv) hl
+  have hcore : CoreStepB ic (ic.setArg i a') reg (pre.foldl Item.apply k.ctx) ctoks :=
+    coreStepB_value ic reg _ tok v ctoks i a a' hsp (by rw [htab.1]; exact hcf) (by rw [htab.2]; exact hcinv) hl
       (by rw [htab.1]; exact hvf) (by rw [htab.2]; exact hvinv) hf ha hh ht hr0 ho hs
   have hcore0 : CoreStep0 ic (ic.setArg i a') ctoks := coreStep0_value ic tok v ctoks i a a' hsp hvf0 hvinv0 hf ha ht hr0 ho hs
   have hmiss' : (ic.setArg i a').missingPositional = [] := by
     simp [Ctx.missingPositional, Ctx.setArg, hpos]
-  obtain ⟨hA, hB⟩ := program_with_core_later ic (ic.setArg i a') reg k0 r0 k pre post calls2 ctoks rfl rfl hmiss' hk hok hpre
+  obtain ⟨hA, hB⟩ := program_with_core_later ic (ic.setArg i a') reg k0 r0 k pre post calls2 ctoks rfl rfl hmiss' hk hok
     hcore hcore0 hbodyA hbodyB
   have hga' : a'.gotValue = true := by
     have : ¬ a'.spec.kind = .list := by rw [s1]; exact hkl
@@ -340,7 +337,6 @@ theorem core_value_flag_placement_partial3_later (ic : Ctx) (reg : List Ctx) (k0
 theorem core_bool_block_placement_partial2 (ic ic' : Ctx) (reg : List Ctx) (calls1 : List Call) (k : Call) (pre post : List Item)
     (calls2 : List Call) (x : Char) (ys : List Char)
     (hk : k.items = pre ++ post) (hok : ChainOK (some ic) reg (some ic) (calls1 ++ k :: calls2))
-    (hpre : endsBare false pre = false)
     (hx : x ≠ '-') (hys : ys ≠ []) (hne : hasEq ('-' :: x :: ys) = false)
     (hp : BoolPieces reg k.ctx ic (blockPieces x ys) ic')
     (hfresh : ∀ a ∈ ic.args, a.takesValue = false → a.gotValue = false ∧ a.spec.kind ≠ .list)
@@ -353,18 +349,18 @@ theorem core_bool_block_placement_partial2 (ic ic' : Ctx) (reg : List Ctx) (call
       rA.tasks = (calls1 ++ k :: calls2).map Call.result ∧ rB.tasks = rA.tasks ∧ rA.remainder = rB.remainder := by
   have htab := foldl_apply_tables pre k.ctx
   have hp' : BoolPieces reg (pre.foldl Item.apply k.ctx) ic (blockPieces x ys) ic' := BoolPieces.congr htab.1 htab.2 hp
-  have hcore := coreStep_block ic ic' reg _ x ys hx hys hne hp'
+  have hcore := coreStepB_block ic ic' reg _ x ys hx hys hne hp'
   have hcore0 := coreStep0_block ic ic' reg _ x ys hx hys hne hp'
   obtain ⟨t1, t2, t3⟩ := hp.tables
   have hmiss' : ic'.missingPositional = [] := by simp [Ctx.missingPositional, t3, hpos]
   have hview := updateCore_view_pieces reg k.ctx ic ic' _ hfresh hp
   cases calls1 with
   | nil =>
-    obtain ⟨hA, hB⟩ := program_with_core ic ic' reg k pre post calls2 ['-' :: x :: ys] t1 t2 hmiss' hk hok hpre hcore hcore0
+    obtain ⟨hA, hB⟩ := program_with_core ic ic' reg k pre post calls2 ['-' :: x :: ys] t1 t2 hmiss' hk hok hcore hcore0
       (by simpa using hbodyA)
     exact ⟨_, _, hA, hB, hview, overrides_view _ _ hview, rfl, rfl, rfl⟩
   | cons k0 r0 =>
-    obtain ⟨hA, hB⟩ := program_with_core_later ic ic' reg k0 r0 k pre post calls2 ['-' :: x :: ys] t1 t2 hmiss' hk hok hpre
+    obtain ⟨hA, hB⟩ := program_with_core_later ic ic' reg k0 r0 k pre post calls2 ['-' :: x :: ys] t1 t2 hmiss' hk hok
       hcore hcore0 hbodyA hbodyB
     exact ⟨_, _, hA, hB, hview, overrides_view _ _ hview, rfl, rfl, rfl⟩
 
@@ -469,27 +465,45 @@ example : (effect (programParse coreCtx c18Reg (argvOf ["t2", "-p", "val"]))).ma
 example : (programParse coreCtx c18Reg (argvOf ["-e", "t1", "--flag", "t2", "x", "--", "--echo", "y  z", "--", "t1"])).toOption.map
             (fun r => (r.unparsed, r.remainder)) =
           some (argvOf ["t1", "--flag", "t2", "x"], "--echo y  z -- t1".toList) := by decide
-/-- KNOWN FINDING C18-core-optional-then-core-flag (the point the `_partial` placement theorems exclude).
-    Inside a task's argument list a bare core optional-value flag (`-l`/`--list`) directly followed by another core
-    flag swallows that flag as its value, while before the tasks the same two tokens mean "list" + the second flag:
-    `handle` tests `waiting_for_flag_value` before it looks the token up among the core flags, and the rollback of
-    `parse_argv` for a pending optional value consults only the flags of the current (task) context.
-    Real table of core arguments (`Generated/Program.lean`). -/
-theorem core_optional_then_core_flag_counterexample :
-    -- before the task: list = True, echo on
-    (programParse coreCtx c18Reg (argvOf ["-l", "-e", "t1"])).toOption.map
-        (fun r => (r.core.valueOf "list".toList, r.core.valueOf "echo".toList)) = some (.b true, .b true) ∧
-    -- inside the task's argument list: "-e" became the list root, echo stays off
+/-- REPAIRED (known finding C18-core-optional-then-core-flag, fix "a core flag directly after a core optional-value flag
+    inside a task context is a flag, not that flag's value"): inside a task's argument list a bare core optional-value
+    flag (`-l`/`--list`) directly followed by another core flag means what it means before the tasks — "list" plus the
+    second flag.  Real table of core arguments (`Generated/Program.lean`). -/
+theorem core_optional_then_core_flag_repaired :
+    effect (programParse coreCtx c18Reg (argvOf ["t1", "-l", "-e"])) = effect (programParse coreCtx c18Reg (argvOf ["-l", "-e", "t1"])) ∧
+    effect (programParse coreCtx c18Reg (argvOf ["t1", "-l", "-F", "nested"])) =
+      effect (programParse coreCtx c18Reg (argvOf ["-l", "-F", "nested", "t1"])) ∧
     (programParse coreCtx c18Reg (argvOf ["t1", "-l", "-e"])).toOption.map
-        (fun r => (r.core.valueOf "list".toList, r.core.valueOf "echo".toList)) = some (.s "-e".toList, .b false) ∧
-    -- the witness of the finding: `-l -F nested t1` lists in nested format, `t1 -l -F nested` does not even parse
-    (programParse coreCtx c18Reg (argvOf ["-l", "-F", "nested", "t1"])).toOption.map
-        (fun r => (r.core.valueOf "list".toList, r.core.valueOf "list-format".toList)) = some (.b true, .s "nested".toList) ∧
+        (fun r => (r.core.valueOf "list".toList, r.core.valueOf "echo".toList)) = some (.b true, .b true) ∧
     (programParse coreCtx c18Reg (argvOf ["t1", "-l", "-F", "nested"])).toOption.map
-        (fun r => (r.core.valueOf "list".toList, r.core.valueOf "list-format".toList)) = none ∧
-    -- a flag of the TASK after the bare core flag is fine (the documented rule): list = True, t1's flag set
+        (fun r => (r.core.valueOf "list".toList, r.core.valueOf "list-format".toList)) = some (.b true, .s "nested".toList) ∧
+    -- a flag of the TASK after the bare core flag: list = True, t1's flag set (the documented rule, unchanged)
     (programParse coreCtx c18Reg (argvOf ["t1", "-l", "--flag"])).toOption.map
         (fun r => (r.core.valueOf "list".toList, r.tasks.map (fun c => c.valueOf "flag".toList))) = some (.b true, [.b true]) := by
+  decide
+
+/-- the test of the pending-value branch of `handle` before that repair: "a value is awaited", nothing else -/
+def pendingValueBranchPinned (m : M) (_tok : Tok) : Bool := m.waiting
+/-- … and after it (the condition in `M.handle`) -/
+def pendingValueBranch (m : M) (tok : Tok) : Bool := m.waiting && !(M.optionalPending m && M.coreFlagInTask m tok)
+
+/-- what `see_value` would store in the core `list` argument -/
+def listAfterSeeValue (r : Except Err M) (tok : Tok) : Option PVal :=
+  match r with
+  | .ok m => (match M.seeValue m tok with
+      | .ok m' => m'.initial.map (fun ic => ic.valueOf "list".toList)
+      | .error _ => none)
+  | .error _ => none
+
+/-- PRE-FIX BEHAVIOUR: in the machine reached after `t1 -l` (task context `t1`, the core flag `--list` pending with an
+    optional value) the pinned rule takes the next token `-e` as that flag's VALUE (list root "-e", echo never set),
+    the repaired rule does not — `-e` falls through to the core-flag branch. -/
+theorem core_optional_then_core_flag_pinned_counterexample :
+    (match runBody (some coreCtx) c18Reg false (argvOf ["t1", "-l"]) with
+      | .ok m => (pendingValueBranchPinned m "-e".toList, pendingValueBranch m "-e".toList, M.optionalPending m,
+                  M.coreFlagInTask m "-e".toList)
+      | .error _ => (false, false, false, false)) = (true, false, true, true) ∧
+    listAfterSeeValue (runBody (some coreCtx) c18Reg false (argvOf ["t1", "-l"])) "-e".toList = some (.s "-e".toList) := by
   decide
 
 /-- REPAIRED (known finding C18-glued-core-value-with-equals, fix "value glued to a core short flag keeps any '=' it
@@ -548,7 +562,7 @@ example : ∃ rA rB,
     programParse coreCtx c18Reg (argvOf ["-e", "t2", "val", "-v", "t1", "--name", "zed"]) = .ok rB ∧
     overrides rA.core = overrides rB.core ∧ rB.tasks = rA.tasks :=
   have h := core_flag_placement_invariant_partial2 coreCtx c18Reg plCall [] plCall.items [plCall2] "-e".toList 5
-    (coreCtx.args.getD 5 (Arg.init { names := [] })) _ rfl (chainOKb_sound _ (by decide)) rfl (unsplitB_sound (by decide))
+    (coreCtx.args.getD 5 (Arg.init { names := [] })) _ rfl (chainOKb_sound _ (by decide)) (unsplitB_sound (by decide))
     (by decide) (by decide) (by decide) (by decide) (by decide) (by decide) (by decide) (by decide) (by decide) rfl (by decide)
     (noSentinelB_sound (by decide))
   let ⟨rA, rB, h1, h2, _, h4, _, h6, _⟩ := h
@@ -560,7 +574,7 @@ example : ∃ rA rB,
     programParse coreCtx c18Reg (argvOf ["-T", "5", "t2", "val", "-v"]) = .ok rB ∧
     overrides rA.core = overrides rB.core ∧ rB.tasks = rA.tasks :=
   have h := core_value_flag_placement_partial2 coreCtx c18Reg plCall [.pos "val".toList 0] [.toggle "-v".toList 1] []
-    "-T".toList "5".toList 0 (coreCtx.args.getD 0 (Arg.init { names := [] })) _ rfl (chainOKb_sound _ (by decide)) rfl
+    "-T".toList "5".toList 0 (coreCtx.args.getD 0 (Arg.init { names := [] })) _ rfl (chainOKb_sound _ (by decide))
     (unsplitB_sound (by decide)) (by decide) (by decide) (by decide) (by decide) (by decide) (by decide) (by decide)
     (by decide) (by decide) (by decide) (by decide) (by decide) (by decide) (by decide) (by decide) rfl (by decide)
     (noSentinelB_sound (by decide))
@@ -574,7 +588,7 @@ example : ∃ rA rB,
     overrides rA.core = overrides rB.core ∧ rB.tasks = rA.tasks :=
   have h := core_value_flag_placement_partial3 coreCtx c18Reg plCall [.pos "val".toList 0] [.toggle "-v".toList 1] []
     "-T".toList "5".toList ["-T5".toList] 0 (coreCtx.args.getD 0 (Arg.init { names := [] })) _
-    (.glued 'T' '5' [] rfl rfl (by decide) (by decide)) rfl (chainOKb_sound _ (by decide)) rfl
+    (.glued 'T' '5' [] rfl rfl (by decide) (by decide)) rfl (chainOKb_sound _ (by decide))
     (by decide) (by decide) (by decide) (by decide) (by decide) (by decide) (by decide)
     (by decide) (by decide) (by decide) (by decide) (by decide) (by decide) (by decide) (by decide) rfl (by decide)
     (noSentinelB_sound (by decide))
@@ -586,7 +600,7 @@ example : ∃ rA rB,
     overrides rA.core = overrides rB.core ∧ rB.tasks = rA.tasks :=
   have h := core_value_flag_placement_partial3 coreCtx c18Reg plCall [.pos "val".toList 0] [.toggle "-v".toList 1] []
     "--command-timeout".toList "5".toList ["--command-timeout=5".toList] 0 (coreCtx.args.getD 0 (Arg.init { names := [] })) _
-    (.eq (flagTokB_sound (by decide))) rfl (chainOKb_sound _ (by decide)) rfl
+    (.eq (flagTokB_sound (by decide))) rfl (chainOKb_sound _ (by decide))
     (by decide) (by decide) (by decide) (by decide) (by decide) (by decide) (by decide)
     (by decide) (by decide) (by decide) (by decide) (by decide) (by decide) (by decide) (by decide) rfl (by decide)
     (noSentinelB_sound (by decide))
@@ -601,7 +615,7 @@ example : ∃ rA rB,
   have h := core_value_flag_placement_partial3 coreCtx c18Reg
     { tname := "t1".toList, ctx := c18Reg.getD 1 (Ctx.empty none), items := [] } [] [] []
     "-F".toList "x=y".toList ["-Fx=y".toList] 10 (coreCtx.args.getD 10 (Arg.init { names := [] })) _
-    (.glued 'F' 'x' "=y".toList rfl rfl (by decide) (by decide)) rfl (chainOKb_sound _ (by decide)) rfl
+    (.glued 'F' 'x' "=y".toList rfl rfl (by decide) (by decide)) rfl (chainOKb_sound _ (by decide))
     (by decide) (by decide) (by decide) (by decide) (by decide) (by decide) (by decide)
     (by decide) (by decide) (by decide) (by decide) (by decide) (by decide) (by decide) (by decide) rfl (by decide)
     (noSentinelB_sound (by decide))
@@ -614,7 +628,7 @@ example : ∃ rA rB,
     programParse coreCtx c18Reg (argvOf ["-e", "t1", "--name", "zed", "t2", "val", "-v"]) = .ok rB ∧
     overrides rA.core = overrides rB.core ∧ rB.tasks = rA.tasks :=
   have h := core_flag_placement_invariant_partial2_later coreCtx c18Reg plCall2 [] plCall [] plCall.items [] "-e".toList 5
-    (coreCtx.args.getD 5 (Arg.init { names := [] })) _ rfl (chainOKb_sound _ (by decide)) rfl (unsplitB_sound (by decide))
+    (coreCtx.args.getD 5 (Arg.init { names := [] })) _ rfl (chainOKb_sound _ (by decide)) (unsplitB_sound (by decide))
     (by decide) (by decide) (by decide) (by decide) (by decide) (by decide) (by decide) (by decide) (by decide) rfl (by decide)
     (noSentinelB_sound (by decide)) (noSentinelB_sound (by decide))
   let ⟨rA, rB, h1, h2, _, h4, _, h6, _⟩ := h
@@ -631,10 +645,27 @@ example : ∃ rA rB,
       (.cons 15 (coreCtx.args.getD 15 (Arg.init { names := [] })) _ (unsplitB_sound (by decide)) (by decide) (by decide) (by decide)
         (by decide) (by decide) (by decide) (by decide) rfl (.nil _))
   have h := core_bool_block_placement_partial2 coreCtx _ c18Reg [] plCall [] plCall.items [] 'e' ['w'] rfl
-    (chainOKb_sound _ (by decide)) rfl (by decide) (by decide) (by decide) hp (by decide) (by decide)
+    (chainOKb_sound _ (by decide)) (by decide) (by decide) (by decide) hp (by decide) (by decide)
     (noSentinelB_sound (by decide)) (noSentinelB_sound (by decide))
   let ⟨rA, rB, h1, h2, _, h4, _, h6, _⟩ := h
   ⟨rA, rB, h1, h2, h4, h6⟩
+
+/-- the formerly excluded point, now covered: the core flag directly after a BARE optional-value flag of the task —
+    `o --opt -e` vs `-e o --opt` (`def o(c, opt=None)` with `optional=["opt"]`) -/
+def plOptReg : List Ctx := [c18Ctx "o" [{ names := ["opt".toList], optional := true }]]
+def plOptCall : Call := { tname := "o".toList, ctx := plOptReg.headD (Ctx.empty none), items := [.optBare "--opt".toList 0] }
+example : endsBare false plOptCall.items = true := rfl
+example : ∃ rA rB,
+    programParse coreCtx plOptReg (argvOf ["o", "--opt", "-e"]) = .ok rA ∧
+    programParse coreCtx plOptReg (argvOf ["-e", "o", "--opt"]) = .ok rB ∧
+    overrides rA.core = overrides rB.core ∧ rB.tasks = rA.tasks ∧ rA.tasks = [plOptCall.result] :=
+  have h := core_flag_placement_invariant_partial2 coreCtx plOptReg plOptCall plOptCall.items [] [] "-e".toList 5
+    (coreCtx.args.getD 5 (Arg.init { names := [] })) _ (by simp) (chainOKb_sound _ (by decide)) (unsplitB_sound (by decide))
+    (by decide) (by decide) (by decide) (by decide) (by decide) (by decide) (by decide) (by decide) (by decide) rfl (by decide)
+    (noSentinelB_sound (by decide))
+  let ⟨rA, rB, h1, h2, _, h4, h5, h6, _⟩ := h
+  ⟨rA, rB, h1, h2, h4, h6, h5⟩
+example : (plOptCall.result.valueOf "opt".toList) = .b true := by decide
 
 /-- `shadowing_flag_wins_whole` applied: `t2 -p val -v` — `-p` is t2's own flag for `pos`, the core `pty` stays off -/
 def plShadow : Call := { tname := "t2".toList, ctx := c18Reg.headD (Ctx.empty none),
